@@ -16,3 +16,4 @@ CFG = {
                        ('fault:other-authentic-record@lookup:accepted', 1), ('fault:cache-flip-bit@tile:rejected', 1), ('fault:forged-text-honest-head@lookup:rejected', 1)]},
     'assumptions': ['Ed25519 signatures cannot be forged and SHA-256 has no collisions', 'the format readers in harness/world implement the documented note, tree and record formats'],
 }
+CFG['level_text'] += " The forged-log family has a tenth shape: the signature block of the client's stored head under the forged tree text."
